@@ -15,6 +15,36 @@ META = {
 }
 
 
+class PerKeyAut:
+    """(last listener outcome, last notification outcome, admitted-but-not-yet-returned)"""
+    name = 'perkey'
+
+    def init(self):
+        return ('unpolled', 'unpolled', False)
+
+    def step(self, aut, ev, shape, site, X):
+        from engine.shape import poll_outcome
+        l, d, adm = aut
+        if ev[0] == 'R':
+            if adm:
+                X.violation(('LISTENER_POLLED_WITH_ADMITTED_CHANNEL',), site)
+            return (poll_outcome(shape), d, False)
+        if ev[0] == 'K':
+            o = 'Pending' if shape == 'Pending' else ('Progress' if isinstance(shape, tuple) and shape[0] == 'Ready' else 'Pending' if shape == 'Pending' else 'Progress')
+            return (l, o, adm)
+        if ev == ('A', 'admit'):
+            return (l, d, isinstance(shape, tuple) and shape[0] == 'Ok')
+        return aut
+
+
+def _boundary_for(adm_id):
+    def boundary(t, f, callee_f, level, nlevel):
+        if callee_f is not None and callee_f.id == adm_id:
+            return ('A', 'admit')
+        return None
+    return boundary
+
+
 def run(ctx):
     F, P, R = ctx.F, ctx.P, ctx.run
     R.explanation = META['text']
@@ -226,82 +256,23 @@ def run(ctx):
         R.ob('C13.forget', ('close notification', 'entry forgotten only when dead'), ok,
              'a key\'s entry is removed only under a check that none of its channels is alive (a stale notification must not erase a live entry)', [g.loc(t)], '; '.join(det))
 
-    # (3b) an admitted channel is not dropped: after the listener was polled, no way back to the loop head (or out of the function) exists that does not
-    # first look at what the listener returned — a `continue` taken for another reason would discard a channel that was already admitted and counted
+    # (3b)/(4) by exploration of the stream's poll (helpers, carrier enums and match shapes do not matter):
+    #  - an admitted channel is not dropped: once the admission function returned Ok in this activation, the listener is not polled again and the poll does
+    #    not return anything but that channel;
+    #  - Pending is returned only when the last poll of the listener and the last poll of the close notifications both returned Pending.
+    from .shape_common import run_jobs
     pn_ = F.trait_method('Stream', 'MaxChannelsPerKey', 'poll_next')
-    lsrc = [(g, bb, t) for g in reach for bb, t in g.calls() if callee_is(t, 'poll_next_unpin', 'Stream::poll_next') and 'Fuse<' in (t.get('self_ty') or '')]
-    lcalls = []
-    for bb, t in pn_.calls():
-        c = F.callee_fn(t)
-        if c is not None and any(x[0].id == y.id for x in lsrc for y in reachable_local_fns(F, c)):
-            lcalls.append((bb, t))
-        elif callee_is(t, 'poll_next_unpin', 'Stream::poll_next') and 'Fuse<' in (t.get('self_ty') or ''):
-            lcalls.append((bb, t))
-    R.ob('C13.yield', ('<MaxChannelsPerKey as Stream>::poll_next', 'polls the listener at one site'), len(lcalls) == 1,
-         'the stream polls its listener at one site per iteration', [pn_.loc(t) for _, t in lcalls] or [pn_.loc(pn_.d)])
-    if len(lcalls) == 1:
-        lb, lt = lcalls[0]
-        lterm = ('call', pn_.id, lb)
-        disc = set()
-        for i, b in enumerate(pn_.blocks):
-            if b['cleanup'] or b['term']['k'] != 'switch' or b['term']['discr']['k'] not in ('copy', 'move'):
-                continue
-            tt = P.operand(pn_, b['term']['discr'], at=i)
-            if tt[0] == 'discr' and any(P.unbound(x) == lterm for x, _ in P.root(tt[1], inline=False)):
-                disc.add(i)
-        # blocks reachable from the poll's continuation without passing a switch on its result
-        start = lt.get('target')
-        seen_, work_ = set(), [start] if start is not None else []
-        escaped = []
-        while work_:
-            x = work_.pop()
-            if x in seen_ or pn_.blocks[x]['cleanup']:
-                continue
-            seen_.add(x)
-            if x in disc:
-                continue
-            tm = pn_.blocks[x]['term']
-            if x == lb:
-                escaped.append('back to the listener poll')
-                continue
-            if tm['k'] == 'return':
-                escaped.append('return')
-                continue
-            succ = []
-            if tm['k'] == 'call':
-                if tm.get('target') is not None:
-                    succ.append(tm['target'])
-            elif tm['k'] == 'switch':
-                succ += [y for _, y in tm['targets']] + [tm['otherwise']]
-            elif tm['k'] in ('goto', 'drop', 'assert'):
-                succ.append(tm['t'])
-            elif tm['k'] == 'yield':
-                succ.append(tm.get('resume'))
-            work_ += [y for y in succ if y is not None]
-        R.ob('C13.yield', ('<MaxChannelsPerKey as Stream>::poll_next', 'the listener\'s result is examined before looping or returning'), bool(disc) and not escaped,
-             'after the listener was polled every path first branches on what it returned: an admitted channel cannot be discarded by a continue taken for another reason',
-             [pn_.loc(lt)], 'paths that do not look at the result first: %s' % sorted(set(escaped)))
-
-    # (4) Pending only with both sources Pending
-    lp = [(g, bb, t) for g in reach for bb, t in g.calls() if callee_is(t, 'poll_next_unpin', 'Stream::poll_next') and 'Fuse<' in (t.get('self_ty') or '')]
-    dp = [(g, bb, t) for g in reach for bb, t in g.calls() if callee_is(t, 'mpsc::UnboundedReceiver::poll_recv')]
-    R.ob('C13.wake', ('MaxChannelsPerKey', 'two wake sources'), len(lp) == 1 and len(dp) == 1, 'the stream has two sources: the listener and the close notifications', [g.loc(t) for g, _, t in lp + dp])
-    pend = [(i, s) for i, j, s in pn.stmts() if s['rv']['k'] == 'agg' and s['rv']['variant'] == 'Pending' and s['pl']['l'] == 0]
-    R.ob('C13.wake', ('<MaxChannelsPerKey as Stream>::poll_next', 'Pending exits'), len(pend) >= 1, 'the stream can go idle', [pn.loc(s) for _, s in pend] or [pn.loc(pn.d)])
-    helpers = [(bb, t) for bb, t in pn.calls() if F.callee_fn(t) is not None and F.callee_fn(t) in reach]
-    for i, s in pend:
-        n_ok = 0
-        for bb, t in helpers:
-            c = F.callee_fn(t)
-            srcs = [x for x in lp + dp if any(x[0].id == y.id for y in reachable_local_fns(F, c))]
-            if not srcs:
-                continue
-            pred = lambda x: result_of(P, x, ('call', pn.id, bb))
-            callterm = ('call', pn.id, bb)
-            is_q = lambda x, nm: any(P.is_call(r, nm) and any(result_of(P, P.args_of(r)[0], callterm) or any(P.unbound(q) == callterm for q, _ in P.root(P.args_of(r)[0], inline=False)) for _ in [0]) for r, _ in P.root(x, inline=False))
-            if guarded_by_variant(F, P, pn, i, pred, ['Pending']) \
-                    or guarded_by_bool(F, P, pn, i, lambda x: is_q(x, 'Poll::is_ready'), False) \
-                    or guarded_by_bool(F, P, pn, i, lambda x: is_q(x, 'Poll::is_pending'), True):
-                n_ok += 1
-        R.ob('C13.wake', ('<MaxChannelsPerKey as Stream>::poll_next', 'Pending only if both sources are Pending'), n_ok >= 2,
-             'the stream returns Pending only on the edge where both the listener poll and the notification poll returned Pending (both wakers registered)', [pn.loc(s)], 'guards: %d' % n_ok)
+    res_ = run_jobs(F, [{'key': 'perkey', 'entry': pn_.id, 'aut': ('custom', PerKeyAut), 'boundary': _boundary_for(adm.id), 'depth': 5}])['perkey']
+    R.count('states_explored', res_['stats'].get('states', 0))
+    v_ = {k[0]: sorted(sites) for k, sites in res_['viol'].items()}
+    exits_ = res_['exits']
+    n_yield = sum(1 for (ret, e, lab) in exits_ if isinstance(ret, tuple) and ret[0] == 'Ready' and isinstance(ret[1], tuple) and ret[1][0] == 'Some')
+    lost = sorted({repr(ret)[:30] for (ret, e, lab) in exits_ if e[0][2] and not (isinstance(ret, tuple) and ret[0] == 'Ready' and isinstance(ret[1], tuple) and ret[1][0] == 'Some')})
+    R.ob('C13.yield', ('<MaxChannelsPerKey as Stream>::poll_next', 'an admitted channel is yielded'), n_yield >= 1 and not lost and 'LISTENER_POLLED_WITH_ADMITTED_CHANNEL' not in v_,
+         'once a channel was admitted (and counted) in an activation, that activation returns it: the listener is not polled again first and no other result is returned',
+         v_.get('LISTENER_POLLED_WITH_ADMITTED_CHANNEL', []) or [pn_.loc(pn_.d)], 'returns that drop an admitted channel: %s' % lost)
+    pend = [(e[0][0], e[0][1]) for (ret, e, lab) in exits_ if ret == 'Pending']
+    badp = sorted({x for x in pend if x != ('Pending', 'Pending')})
+    R.ob('C13.wake', ('<MaxChannelsPerKey as Stream>::poll_next', 'Pending only if both sources are Pending'), bool(pend) and not badp,
+         'the stream returns Pending only when the last poll of the listener and the last poll of the close notifications both returned Pending (both wakers registered)',
+         [pn_.loc(pn_.d)], 'offending (listener last, notifications last): %s' % badp)
